@@ -57,8 +57,14 @@ def line_of(fn, b):
     return fn["blocks"][b]["term"]["line"]
 
 
-def eof_tests(fn, cfg, defs, loop_body, rl_block):
-    """branches inside the loop whose condition derives from read_line's Ok payload or the buffer's length"""
+TRANSFORMS = ("<impl str>::trim", "<impl str>::trim_end", "<impl str>::trim_start", "<impl str>::to_ascii_lowercase", "<impl str>::to_lowercase",
+              "<impl str>::to_ascii_uppercase", "<impl str>::to_uppercase", "ToOwned>::to_owned", "Clone>::clone", "ToString>::to_string", "String::from")
+
+
+def eof_tests(fn, cfg, defs, loop_body, rl_block, kinds=None):
+    """branches inside the loop whose condition derives from read_line's Ok payload or the buffer's length.
+    kinds (optional dict) receives per test block 'raw' (byte count / the buffer itself: true at end of input only) or
+    'derived' (emptiness of a trimmed / case-folded copy: also true for a blank line)"""
     t = M.term(fn["blocks"][rl_block])
     res_local = t[3]["l"]
     # the buffer: origin of the &mut String argument
@@ -85,6 +91,28 @@ def eof_tests(fn, cfg, defs, loop_body, rl_block):
 
     tests = []
     derived = set()
+    xform = set()        # locals holding a text computed from the buffer by trimming / case folding / copying
+    from_xform = set()   # test values that come from such a copy
+
+    def base_of(op):
+        """local an operand denotes after seeing through borrows, copies and deref-like calls"""
+        if op[0] not in ("copy", "move"):
+            return None
+        l = op[1]["l"]
+        d = defs.single(l)
+        hops = 0
+        while d and hops < 10:
+            hops += 1
+            if d[0] == "assign" and d[2][2][0] == "ref":
+                l = d[2][2][1]["l"]
+            elif d[0] == "assign" and d[2][2][0] == "use" and d[2][2][1][0] in ("copy", "move"):
+                l = d[2][2][1][1]["l"]
+            elif d[0] == "call" and any((d[2][1].get("def") or "").endswith(x) for x in DEREFS) and d[2][2] and d[2][2][0][0] in ("copy", "move"):
+                l = d[2][2][0][1]["l"]
+            else:
+                break
+            d = defs.single(l)
+        return l
     changed = True
     while changed:
         changed = False
@@ -109,6 +137,19 @@ def eof_tests(fn, cfg, defs, loop_body, rl_block):
                     derived.add(s[1]["l"])
                     changed = True
             tt = M.term(bb)
+            if tt[0] == "call" and buf is not None and tt[2]:
+                name0 = tt[1].get("def") or ""
+                if any(name0.endswith(x) for x in TRANSFORMS):
+                    b0 = base_of(tt[2][0])
+                    if (b0 == buf or b0 in xform) and tt[3]["l"] not in xform:
+                        xform.add(tt[3]["l"])
+                        changed = True
+                if any(name0.endswith(x) for x in LEN_CALLS):
+                    b0 = base_of(tt[2][0])
+                    if b0 in xform and tt[3]["l"] not in derived:
+                        derived.add(tt[3]["l"])
+                        from_xform.add(tt[3]["l"])
+                        changed = True
             if tt[0] == "call" and buf is not None:
                 name = tt[1].get("def") or ""
                 if any(name.endswith(x) for x in LEN_CALLS) and tt[2]:
@@ -144,6 +185,10 @@ def eof_tests(fn, cfg, defs, loop_body, rl_block):
         leaving = [s for s in cfg.succ[b] if s not in loop_body and M.term(fn["blocks"][s])[0] != "unreachable"]
         # an edge that stays in the body but can only reach an exit call (process::exit) also leaves
         tests.append((b, bool(leaving)))
+        if kinds is not None:
+            o = origin(defs, d)
+            src_l = d[1]["l"]
+            kinds[b] = "derived" if (src_l in from_xform or (o[0] in ("multi", "param") and o[1] in from_xform)) else "raw"
     return tests, buf
 
 
@@ -280,6 +325,27 @@ def run(ctx, chk):
         for w, k in sorted(words.items()):
             if k not in ({"return"}, {"exit"}):
                 chk.violation("C20.R2", "user_interface", f"word-{w}-ambiguous", f"'{w}' can end in {sorted(k)}", where)
+        # only n/next, q/quit, end of input and a failing read may leave the prompt: a test that is also true for other
+        # input (emptiness of the trimmed / case-folded line is true for a blank line) must lead back to the prompt
+        if head is not None and rl:
+            kinds = {}
+            body_ = next(b for h, b in loops.items() if h == head)
+            tests_, _buf = eof_tests(ui, cfg, Defs(ui), body_, rl[0], kinds=kinds)
+            bad_ = []
+            for b, _leaves in tests_:
+                if kinds.get(b) != "derived":
+                    continue
+                for s_ in cfg.succ[b]:
+                    k_ = exits_only(ui, cfg, s_, head)
+                    if k_ and "loop" not in k_:
+                        bad_.append((b, sorted(k_)))
+            if bad_:
+                chk.violation("C20.R2", "user_interface", "blank-input-terminates",
+                              f"a test on the trimmed / case-folded input line (not on the raw byte count) leads to {bad_[0][1]}: a blank line -- not only end of input -- "
+                              "ends the prompt, so the rest of the program is not executed", f"{where}:{line_of(ui, bad_[0][0])}",
+                              witness="an empty line typed at the prompt")
+            else:
+                chk.ok("C20.R2", "other-input", "no test on a transformed copy of the line leaves the prompt")
         # everything else: print parser with the same vm, then back to the loop head on every path
         pc = [(bi, t) for bi, t in M.calls_in(ui) if (t[1].get("def") or "").endswith("PrintParser::parse")]
         if not pc or head is None:
